@@ -19,6 +19,7 @@ import (
 
 	"github.com/bufbuild/verifharness/internal/reg"
 	"google.golang.org/protobuf/proto"
+	"google.golang.org/protobuf/types/descriptorpb"
 	"google.golang.org/protobuf/types/pluginpb"
 )
 
@@ -59,6 +60,11 @@ func PluginMain() {
 		for _, m := range fd.GetMessageType() {
 			rec.Messages[fd.GetName()] = append(rec.Messages[fd.GetName()], m.GetName())
 		}
+	}
+	if dir := params["dump"]; dir != "" {
+		// the descriptors this plugin received, for stages that judge their content
+		b, _ := proto.Marshal(&descriptorpb.FileDescriptorSet{File: req.GetProtoFile()})
+		_ = os.WriteFile(filepath.Join(dir, fmt.Sprintf("%s-%d.binpb", rec.Name, os.Getpid())), b, 0o644)
 	}
 	if dir := params["log"]; dir != "" {
 		b, _ := json.Marshal(rec)
